@@ -207,6 +207,44 @@ var scenarios = [][]string{
 		"c adv 1",
 		"c q wire n2 f t -",
 	},
+	{ // the request-tree fold is min-only: a cached piece limited by its own TTL, then a piece with a longer lease
+		"c new 100000 t",
+		"c q lwire n2 f f n2=c3:p300:-:60:-",
+		"c q dwire n1 f f n1=c2:p5:-:-:-",
+		"c q lwire n0 f f n0=c1:p6:-:-:-",
+		"c q wire n0 f f -",
+		"c adv 4",
+		"c q wire n0 f f -",
+		"c adv 1",
+		"c q msg n0 f t -",
+	},
+	{ // the same fold, the leased piece first in time and a TTL-limited alias over it
+		"c new 100000 f",
+		"c q wire n2 f f n2=c3:p3:p3600:6:-;n3=p:p10:-:10:-",
+		"c adv 3",
+		"c q wire n0 f t n0=c2:p12,G12/4:-:-:-",
+		"c q msg n0 f t -",
+		"c adv 3",
+		"c q wire n0 f t -",
+	},
+	{ // RFC 8198 NXDOMAIN synthesis: SOA + covering NSEC + the apex NSEC that covers the wildcard, of differing ages
+		"c new 0 f",
+		"c prec 0 s300/300,g300/300/4000000,p200,g300/300/4000000 -",
+		"c adv 10",
+		"c prec 1 s300/300,g300/300/4000000,p300,g300/300/4000000 -",
+		"c q msg x1 f t -",
+		"c q wire x1 f f -",
+		"c get x1",
+		"c q msg x2 f t -",
+		"c adv 100",
+		"c prec 2 s30/30,g30/30/4000000,p300,g300/300/4000000 -",
+		"c q msg x1 f t -",
+		"c q msg x2 f t -",
+		"c adv 29",
+		"c q dwire x1 f t -",
+		"c adv 1",
+		"c q msg x1 f t -",
+	},
 	{ // DNS64: the synthetic AAAA is composed from the A answer and the AAAA NODATA, of differing ages
 		"c new 0 f",
 		"c q msg m0 f t m0=d:-:s300/300:-:-;n0=p:p250,p250:-:-:-",
@@ -674,7 +712,7 @@ func (g *genHist) genSpec(name string, kind byte, tgt int, ecs bool) string {
 func (g *genHist) pickKind(idx int) (byte, int) {
 	r := g.r
 	if len(g.proofs) > 0 && r.Chance(1, 6) {
-		return 'c', 100 + vlib.Pick(r, g.proofs) // alias onto an owner of the proof zone
+		return 'c', 100 + g.proofOwner() // alias onto an owner of the proof zone
 	}
 	if len(g.cuts) > 0 && r.Chance(1, 5) {
 		return 'c', 200 + vlib.Pick(r, g.cuts) // alias onto a name below a recorded subtree cut
@@ -810,14 +848,21 @@ func genHistCase(r *vlib.R, emitRaw func(string)) int {
 		emit(g.genProof(b))
 		g.proofs = append(g.proofs, b)
 		count += 4
+		if g.pzone == 'p' && r.Chance(2, 3) {
+			// the apex NSEC, admitted at yet another instant: an NXDOMAIN is then composed of three pieces
+			emit(fmt.Sprintf("c adv %d", g.pickAdvance()))
+			emit(g.genProof(0))
+			g.proofs = append(g.proofs, 0)
+			count += 2
+		}
 		for k := 0; k < 3; k++ {
 			if hist != nil && hist.taint {
 				return count
 			}
 			if r.Chance(1, 4) {
-				emit(fmt.Sprintf("c get %c%d", g.pzone, vlib.Pick(r, []int{a, a, b})))
+				emit("c get " + g.proofQ(vlib.Pick(r, []int{a, a, b})))
 			} else {
-				emit(fmt.Sprintf("c q %s %c%d f %s -", g.route(), g.pzone, vlib.Pick(r, []int{a, a, b}), vlib.B(r.Chance(2, 3))))
+				emit(fmt.Sprintf("c q %s %s f %s -", g.route(), g.proofQ(vlib.Pick(r, []int{a, a, b})), vlib.B(r.Chance(2, 3))))
 			}
 			emit(fmt.Sprintf("c adv %d", g.pickAdvance()))
 			count += 2
@@ -916,10 +961,10 @@ func genHistCase(r *vlib.R, emitRaw func(string)) int {
 			}
 			if len(g.proofs) > 0 && r.Chance(1, 5) {
 				if r.Chance(1, 4) {
-					emit(fmt.Sprintf("c get %c%d", g.pzone, vlib.Pick(r, g.proofs)))
+					emit("c get " + g.proofQ(g.proofOwner()))
 					continue
 				}
-				emit(fmt.Sprintf("c q %s %c%d %s %s -", g.route(), g.pzone, vlib.Pick(r, g.proofs), vlib.B(r.Chance(1, 8)), vlib.B(r.Chance(2, 3))))
+				emit(fmt.Sprintf("c q %s %s %s %s -", g.route(), g.proofQ(g.proofOwner()), vlib.B(r.Chance(1, 8)), vlib.B(r.Chance(2, 3))))
 				continue
 			}
 			if r.Chance(1, 8) {
@@ -962,13 +1007,16 @@ func genHistCase(r *vlib.R, emitRaw func(string)) int {
 			}
 		case k >= 96:
 			px := 1 + r.Intn(3)
+			if g.pzone == 'p' && r.Chance(1, 3) {
+				px = 0 // the apex NSEC (covers the wildcard): needed for NXDOMAIN synthesis
+			}
 			switch {
 			case len(g.proofs) > 0 && r.Chance(1, 2):
-				emit(fmt.Sprintf("c q %s %c%d %s %s -", g.route(), g.pzone, vlib.Pick(r, g.proofs), vlib.B(r.Chance(1, 8)), vlib.B(r.Chance(2, 3))))
+				emit(fmt.Sprintf("c q %s %s %s %s -", g.route(), g.proofQ(g.proofOwner()), vlib.B(r.Chance(1, 8)), vlib.B(r.Chance(2, 3))))
 			default:
 				emit(g.genProof(px))
 				g.proofs = append(g.proofs, px)
-				emit(fmt.Sprintf("c q %s %c%d f %s -", g.route(), g.pzone, vlib.Pick(r, g.proofs), vlib.B(r.Chance(2, 3))))
+				emit(fmt.Sprintf("c q %s %s f %s -", g.route(), g.proofQ(g.proofOwner()), vlib.B(r.Chance(2, 3))))
 				count++
 			}
 		default:
@@ -1027,6 +1075,28 @@ func (g *genHist) genAAAASide(idx int, emit func(string)) {
 		}
 	}
 	emit(fmt.Sprintf("c q %s %s %s %s %s", g.route(), name, vlib.B(r.Chance(1, 8)), vlib.B(r.Bool()), strings.Join(specs, ";")))
+}
+
+// proofOwner: an admitted owner other than the apex; proofQ: the name to ask — the owner itself
+// (NODATA) or, in the NSEC zone, the name inside its span (NXDOMAIN: needs the apex NSEC as well).
+func (g *genHist) proofOwner() int {
+	var os []int
+	for _, p := range g.proofs {
+		if p > 0 {
+			os = append(os, p)
+		}
+	}
+	if len(os) == 0 {
+		return 1
+	}
+	return vlib.Pick(g.r, os)
+}
+
+func (g *genHist) proofQ(owner int) string {
+	if g.pzone == 'p' && g.r.Chance(2, 5) {
+		return fmt.Sprintf("x%d", owner)
+	}
+	return fmt.Sprintf("%c%d", g.pzone, owner)
 }
 
 // genProof: an RFC 8198 NODATA proof for owner k of the proof zone.  The SOA
